@@ -72,7 +72,8 @@ pub struct Rendered {
 /// slot ids in which a comment makes the formatter's output unstable (second run differs; recorded findings)
 pub const UNSTABLE_SLOTS: &[&str] = &[];
 
-pub const LOSSY_SLOTS: &[&str] = &["label-brace", "loop-brace", "if-brace", "else-brace", "macro-brace", "segment-brace", "define-brace", "test-brace", "import-brace", "import-name"];
+/// slots in which the formatter is known to delete comments (none anymore: the brace slots were repaired)
+pub const LOSSY_SLOTS: &[&str] = &[];
 
 pub fn trivia_cfg(features: &[String]) -> TriviaCfg {
     let has = |f: &str| features.iter().any(|x| x == f);
@@ -89,6 +90,7 @@ pub fn trivia_cfg(features: &[String]) -> TriviaCfg {
         serial_comments: true,
         config_pairs_same_line: has("config_pairs_on_one_line"),
         comment_before_statement_same_line: has("comment_before_statement_same_line"),
+        label_and_instruction_on_one_line: has("label_and_instruction_on_one_line"),
         ..TriviaCfg::clean()
     }
 }
@@ -270,14 +272,10 @@ pub fn check_rendered(r: &Rendered, case_opts: &Opts, case_features: &[String], 
     let has_else = p.files.values().any(|t| skeleton(t).contains("}ELSE{"));
     let mut eff = case_opts.clone();
     let mut opt_features: BTreeSet<String> = BTreeSet::new();
-    if eff.brace_newline && has_else {
-        if case_features.iter().any(|f| f == "brace_newline_else") {
-            opt_features.insert("brace_newline_else".into());
-        } else {
-            // recorded finding: `else` with the new-line brace style is not stable; excluded from the clean domain
-            eff.brace_newline = false;
-        }
-    }
+    // (`else` with the new-line brace style was the trigger of a finding that has been repaired: part of the clean domain)
+    let _ = (has_else, case_features);
+    let eff = eff;
+    let opt_features = opt_features;
     let opts = eff.to_mos();
     log.label_if(r.comments >= 2, "comments>=2");
     log.label_if(p.files.len() > 1, "multi-file");
@@ -287,7 +285,7 @@ pub fn check_rendered(r: &Rendered, case_opts: &Opts, case_features: &[String], 
     }
     log.nontrivial = r.comments >= 2;
     let text_all = |p: &Project| p.files.iter().map(|(n, t)| format!("--- {} ---\n{}", n, t)).collect::<Vec<_>>().join("\n");
-    let mut relevant: BTreeSet<String> = r.features.iter().filter(|f| matches!(f.as_str(), "multiline_block_comment" | "empty_line_comment" | "config_pairs_on_one_line" | "comment_before_statement_same_line")).cloned().collect();
+    let mut relevant: BTreeSet<String> = r.features.iter().filter(|f| matches!(f.as_str(), "multiline_block_comment" | "empty_line_comment" | "config_pairs_on_one_line" | "comment_before_statement_same_line" | "label_and_instruction_on_one_line")).cloned().collect();
     for slot in UNSTABLE_SLOTS.iter().chain(LOSSY_SLOTS.iter()) {
         if r.placed.iter().any(|(s, _)| s == slot) {
             relevant.insert(format!("comment-in-slot:{}", slot));
@@ -446,9 +444,10 @@ pub const RULE: &str = "error-free generator programs (whole statement grammar: 
 
 pub fn run_check12(ctx: &mut Ctx) {
     ctx.rule = format!("{}. oracle C12: formatted text parses clean, same token skeleton (whitespace/comments stripped, case folded), same comments in order (modulo whitespace inside block comments), same segment bytes and diagnostic messages", RULE);
-    let n = ctx.tier.pick(6000, 150_000);
-    ctx.campaign_parallel("clean-domain", n, 16, || strategy(vec![]), prop12, to_json);
-    for f in ["multiline_block_comment", "empty_line_comment", "config_pairs_on_one_line"] {
+    let n = ctx.tier.pick(14_000, 300_000);
+    // (`label: instruction` on one line is part of C12's clean domain; for C13 it is the trigger of a recorded finding)
+    ctx.campaign_parallel("clean-domain", n, 16, || strategy(vec!["label_and_instruction_on_one_line".to_string(), "comment_before_statement_same_line".to_string(), "config_pairs_on_one_line".to_string()]), prop12, to_json);
+    for f in ["multiline_block_comment", "empty_line_comment"] {
         let n2 = ctx.tier.pick(1500, 30_000);
         ctx.campaign_parallel(&format!("feature:{}", f), n2, 8, || strategy(vec![f.to_string()]), prop12, to_json);
     }
@@ -462,9 +461,10 @@ pub fn run_check12(ctx: &mut Ctx) {
 
 pub fn run_check13(ctx: &mut Ctx) {
     ctx.rule = format!("{}. oracle C13: format(format(p)) == format(p) with the same options, every file", RULE);
-    let n = ctx.tier.pick(6000, 150_000);
-    ctx.campaign_parallel("clean-domain", n, 16, || strategy(vec![]), prop13, to_json);
-    for f in ["multiline_block_comment", "empty_line_comment", "comment_before_statement_same_line", "brace_newline_else", "config_pairs_on_one_line"] {
+    let n = ctx.tier.pick(14_000, 300_000);
+    // (both were triggers of findings that have been repaired: part of the clean domain)
+    ctx.campaign_parallel("clean-domain", n, 16, || strategy(vec!["label_and_instruction_on_one_line".to_string(), "comment_before_statement_same_line".to_string(), "config_pairs_on_one_line".to_string()]), prop13, to_json);
+    for f in ["multiline_block_comment", "empty_line_comment"] {
         let n2 = ctx.tier.pick(1500, 30_000);
         ctx.campaign_parallel(&format!("feature:{}", f), n2, 8, || strategy(vec![f.to_string()]), prop13, to_json);
     }
@@ -472,7 +472,7 @@ pub fn run_check13(ctx: &mut Ctx) {
         let n2 = ctx.tier.pick(800, 10_000);
         ctx.campaign_parallel(&format!("feature:slot:{}", slot), n2, 4, || strategy(vec![format!("slot:{}", slot)]), prop13, to_json);
     }
-    ctx.excluded.insert("comments in slots / option combinations that are triggers of recorded findings (confirmed separately)".into(), (UNSTABLE_SLOTS.len() + LOSSY_SLOTS.len() + 5) as u64);
+    ctx.excluded.insert("comments in slots / option combinations that are triggers of recorded findings (confirmed separately)".into(), (UNSTABLE_SLOTS.len() + LOSSY_SLOTS.len() + 4) as u64);
     health(ctx);
 }
 
